@@ -182,4 +182,5 @@ func runC17(c *Ctx) {
 			"mainchain/tx_pool.NewTxPool": "constructor: the pool is not shared yet when reset() and the journal load run",
 		})
 	c.LockPairing([]string{"mainchain/tx_pool"}, map[string]string{})
+	runC17Containers(c)
 }
